@@ -1673,11 +1673,32 @@ print("RESULT" + json.dumps(out))
 """
 
 
+def _many_methods(n):
+    return n
+
+
+LOCATION_EXTRA = {   # constructs whose findings quote a NAME taken from the source: SRP on a class / struct with many methods
+    "big_class.py": "class ReportManager:\n" + "".join(f"    def step_{i}(self):\n        return {i}\n\n" for i in range(9)),
+    "big_class.ts": "export class ReportManager {\n" + "".join(f"  step{i}(): number {{ return {i}; }}\n" for i in range(9)) + "}\n",
+    "big_struct.rs": "pub struct ReportManager { id: u32 }\n\nimpl ReportManager {\n"
+                     + "".join(f"    pub fn step_{i}(&self) -> u32 {{ self.id + {i} }}\n" for i in range(9)) + "}\n",
+}
+NON_ASCII_COMMENT = "→ naïve café ─── 日本語"   # multi-byte characters: byte offsets and character offsets differ after them
+
+
 def _location_corpus():
     from contracts.c11_containment import MUTATION_CORPUS
     from contracts.c19_traversal import _embedding_files
     files = {}
-    for name, text in MUTATION_CORPUS.items():
+    for name, text in list(MUTATION_CORPUS.items()) + list(LOCATION_EXTRA.items()):
+        stem, ext = name.rsplit(".", 1)
+        lead = ("# " if ext == "py" else "// ") + NON_ASCII_COMMENT + "\n"
+        if text.startswith("#!"):
+            first, rest = text.split("\n", 1)
+            files[f"{stem}__non-ascii-comment.{ext}"] = first + "\n" + lead + rest
+        elif not text.startswith('"""'):
+            files[f"{stem}__non-ascii-comment.{ext}"] = lead + text
+    for name, text in list(MUTATION_CORPUS.items()) + list(LOCATION_EXTRA.items()):
         files[name] = text
         stem, ext = name.rsplit(".", 1)
         files[f"{stem}__crlf.{ext}"] = text.replace("\n", "\r\n")
@@ -1776,4 +1797,94 @@ def c12_location_bounded(ctx):
                       else f"{e['n']} findings: all at a real location of the linted file", e["n"]))
     if not obs:
         obs.append(ob("findings", "unknown", "the corpus produced no finding at all"))
+    return obs + reuse_scenario(ctx, "c12-location-bounded")
+
+
+# ================================================================== BOUNDED reuse scenario (shared by the C12 / C13 / C19 nets)
+# "every violation names a file that was part of the run" (C12), "edits ... leave the findings unchanged" (C13) and
+# "wherever / any number of times" (C19) are statements about EVERY run, also the second and third run of one long-lived
+# Orchestrator (library / editor use). Scenario, oracle from the property text only: three successive lint_files() calls
+# on ONE Orchestrator with the cross-file rules enabled -- (1) a lone module without duplicates or constants, (2) a project
+# with a duplicated block (one copy inside `# thailint: ignore-start dry` ... `ignore-end`), duplicate constants and a
+# copy of a block of the step-1 module, (3) the same project after edits (blank / comment lines inserted above the
+# suppressed block, the duplicate constant consolidated away) -- each call must answer exactly like a FRESH Orchestrator
+# on the same files, and may only name files of that call.
+_REUSE_BLOCK = ("    total = 0\n    for item in items:\n        if item.value > threshold:\n            total += item.value * factor\n"
+                "        else:\n            total -= item.value / factor\n    result = transform(total, mode=\"fast\")\n"
+                "    return finalize_result(result, items)\n")
+_REUSE_LONE_BLOCK = ("    rows = []\n    for record in records:\n        if record.active and record.score > limit:\n"
+                     "            rows.append((record.name, record.score * weight))\n        elif record.pending:\n"
+                     "            rows.append((record.name, 0))\n    ordered = sorted(rows, key=pick_score)\n"
+                     "    return render_table(ordered, title)\n")
+_REUSE_CONFIG = {"dry": {"enabled": True, "min_duplicate_lines": 3, "detect_duplicate_constants": True,
+                         "min_constant_occurrences": 2, "storage_mode": "memory"}}
+_REUSE_DRIVER = r"""
+import json, sys
+from pathlib import Path
+sys.path.insert(0, sys.argv[1])
+from src.orchestrator.core import Orchestrator
+root = Path(sys.argv[2])
+spec = json.loads((root / "scenario.json").read_text())
+def key(vs):
+    return sorted([v.rule_id, str(Path(v.file_path).resolve().relative_to(root.resolve())) if Path(v.file_path).is_absolute()
+                   else str(v.file_path), v.line, v.column] for v in vs)
+used = Orchestrator(project_root=root, config=spec["config"])
+out = []
+for step in spec["steps"]:
+    for name, text in step["write"].items():
+        (root / name).write_text(text, encoding="utf-8")
+    files = [root / n for n in step["files"]]
+    a = key(used.lint_files(files))
+    b = key(Orchestrator(project_root=root, config=spec["config"]).lint_files(files))
+    out.append({"step": step["name"], "files": step["files"], "used": a, "fresh": b})
+print("RESULT" + json.dumps(out))
+"""
+
+
+def reuse_scenario_steps():
+    head = '"""module"""\n\n'
+    a = head + "API_TIMEOUT = 30\n\n\ndef work_a(items, threshold, factor):\n" + _REUSE_BLOCK
+    b = head + "API_TIMEOUT = 30\n\n\ndef work_b(items, threshold, factor):\n" + _REUSE_BLOCK
+    c = head + "\ndef work_c(items, threshold, factor):\n    # thailint: ignore-start dry\n" + _REUSE_BLOCK + "    # thailint: ignore-end\n"
+    lone = head + "\ndef table(records, limit, weight, title):\n" + _REUSE_LONE_BLOCK
+    dup_of_lone = head + "\ndef table_again(records, limit, weight, title):\n" + _REUSE_LONE_BLOCK
+    b_consolidated = head + "from a import API_TIMEOUT\n\n\ndef work_b(items, threshold, factor):\n" + _REUSE_BLOCK
+    c_shifted = head + "\n".join(["# note for the reader"] * 7 + [""] * 6) + "\n" + c[len(head):]
+    return [
+        {"name": "1-lone-module", "write": {"lone.py": lone}, "files": ["lone.py"]},
+        {"name": "2-project", "write": {"a.py": a, "b.py": b, "c.py": c, "dup_of_lone.py": dup_of_lone},
+         "files": ["a.py", "b.py", "c.py", "dup_of_lone.py"]},
+        {"name": "3-project-after-edits", "write": {"b.py": b_consolidated, "c.py": c_shifted}, "files": ["a.py", "b.py", "c.py"]},
+    ]
+
+
+def reuse_scenario(ctx, check_name):
+    """Obligations (kind bounded) of the reuse scenario, named under the calling net `check_name`."""
+    import json as _j
+    tmp = _tempfile.mkdtemp(prefix="reuse_")
+    with open(os.path.join(tmp, "scenario.json"), "w", encoding="utf-8") as fh:
+        _j.dump({"config": _REUSE_CONFIG, "steps": reuse_scenario_steps()}, fh)
+    p = _subprocess.run([_sys.executable, "-c", _REUSE_DRIVER, ctx["repo"], tmp], capture_output=True, text=True, timeout=600, cwd=tmp)
+    import shutil
+    shutil.rmtree(tmp, ignore_errors=True)
+    line = [ln for ln in p.stdout.splitlines() if ln.startswith("RESULT")]
+
+    def ob(name, verdict, note):
+        return {"name": f"{check_name}/reuse:{name}", "kind": "bounded", "verdict": verdict, "solver": "native", "ms": 0.0,
+                "carries": True, "lineno": 0, "note": note, "cases": 3, "tool": "one Orchestrator, three lint_files() calls",
+                "budget": "3-step scenario", "witness_confirmed": verdict == "refuted"}
+    if not line:
+        return [ob("driver", "unknown", "driver failed: " + (p.stderr or p.stdout)[-400:])]
+    obs = []
+    for st in _j.loads(line[0][len("RESULT"):]):
+        foreign = [v for v in st["used"] if os.path.basename(v[1]) not in st["files"]]
+        obs.append(ob(f"{st['step']}:only-files-of-this-run", "refuted" if foreign else "discharged",
+                      f"violations naming files that are not part of this call: {foreign[:3]}" if foreign
+                      else f"{len(st['used'])} findings, all in the files of this call"))
+        same = st["used"] == st["fresh"]
+        lost = [v for v in st["fresh"] if v not in st["used"]]
+        extra = [v for v in st["used"] if v not in st["fresh"]]
+        obs.append(ob(f"{st['step']}:same-as-a-fresh-run", "discharged" if same else "refuted",
+                      "the reused Orchestrator answers like a fresh one" if same
+                      else f"reused object differs from a fresh one: lost {lost[:3]} gained {extra[:3]}"))
     return obs
